@@ -28,6 +28,7 @@ var c15Binds = []struct{ key, action string }{
 	{"alt-t", "change-query(zzzz)"}, {"alt-u", "end-of-line"}, {"alt-v", "forward-char+forward-char+forward-char+forward-char+forward-char"},
 	{"alt-w", "reload(GEN 1)"}, {"alt-x", "reload(GEN 0)"},
 	// the --header text replaced by one with another number of lines (or none): every other row moves
+	{"alt-3", "toggle-wrap"},
 	{"alt-y", "change-header(H1 one\nH2 two\nH3 three)"}, {"alt-z", "change-header(HX solo)"}, {"alt-1", "change-header(HA first\nHB second)"}, {"alt-2", "change-header()"},
 }
 
@@ -172,10 +173,7 @@ func genC15Plan(r *zsim.Rng) *sysPlan {
 		}
 	}
 	for _, b := range c15Binds {
-		if b.action == "toggle-header" && p.Header > 0 {
-			// header lines use a separate header window whose placement is outside the documented subset
-			continue
-		}
+
 		p.Args = append(p.Args, "--bind", b.key+":"+b.action)
 	}
 	p.Events = append(p.Events, sysEvent{Kind: "settle"})
@@ -420,8 +418,8 @@ func c15Settle(r *sysRun, busy bool) {
 	}
 	textWidth := cols - 3
 	exactRows := listRows
-	if hasArg(plan.Args, "--wrap") {
-		// --wrap: a line that does not fit continues on the next row(s) behind the wrap sign. Which rows a
+	if t.wrap {
+		// --wrap / toggle-wrap (state): a line that does not fit continues on the next row(s) behind the wrap sign. Which rows a
 		// result takes is not modelled; what every row of the list must be is one contiguous piece of one of
 		// the results in view - nothing left over from what the row showed before.
 		exactRows = nil
